@@ -80,7 +80,10 @@ def _make_message(
   try:
     fn_or_cls_name = fn_or_cls.__qualname__
   except AttributeError:
-    fn_or_cls_name = str(fn_or_cls)  # callable instances, etc.
+    try:
+      fn_or_cls_name = str(fn_or_cls)  # callable instances, etc.
+    except Exception:  # pylint: disable=broad-except
+      fn_or_cls_name = f'<ERROR FORMATTING {type(fn_or_cls)} CALLABLE>'
   args_str = ', '.join(f'{_format_arg(value)}' for value in args)
   kwargs_str = ', '.join(
       f'{name}={_format_arg(value)}' for name, value in kwargs.items()
